@@ -168,8 +168,22 @@ Theorem live_reaches_start t0 c0 evs k :
   0 <= c0 <= len t0 -> Forall kev_ok evs -> Forall (modelled c07_rows) evs ->
   let s := kbuf (krun c07_rows (kfresh t0 c0) evs) in
   (length (ustack s) <= k)%nat ->
-  utext (iter_op Undo k s) = t0.
+  utext (iter_op Undo k s) = ksession_start t0 evs.
 Proof. apply key_reaches_start_modelled. exact live_sane. Qed.
+
+(* every undo handler of the real table is one of the two modelled ones
+   (Vi u: event.arg calls; emacs c-_ / c-x c-u: one call) *)
+Lemma live_undo_roles_rows :
+  forallb (fun r => negb (r_act r =? 1) || (r_role r =? 4) || (r_role r =? 5)) c07_rows = true.
+Proof. vm_compute. reflexivity. Qed.
+
+Theorem live_undo_roles h :
+  r_act (lookup c07_rows h) = 1 -> r_role (lookup c07_rows h) = 4 \/ r_role (lookup c07_rows h) = 5.
+Proof.
+  intros Ha. pose proof (forallb_lookup _ c07_rows h live_undo_roles_rows eq_refl) as H. cbn beta in H.
+  rewrite Ha in H. cbn [Z.eqb Pos.eqb negb orb] in H. apply orb_true_iff in H.
+  destruct H as [H|H]; apply Z.eqb_eq in H; [left|right]; exact H.
+Qed.
 
 (* kill-line (c-k), kill-word (escape d), yank (c-y): plain handlers behind
    bindings that snapshot before every invocation *)
